@@ -134,6 +134,38 @@ def run_sel_case(case, pname, occ=0):
         check('biselect[1]', lambda: no, rest(pos))
     except Exception as e:
         problems.append('biselect raised %r' % (e,))
+    # biselect with a non-default `missing`: both tables are cut with the SAME predicate on the same padded records
+    try:
+        mk_ = prof.conc(2)
+        pred = lambda r: r[fld] == mk_
+        yes, no = etl.biselect(t, pred, missing=mk_)
+        ref_yes = [tuple(r) for r in etl.select(t, pred, missing=mk_)]
+        ref_no = [tuple(r) for r in etl.select(t, pred, missing=mk_, complement=True)]
+        gy, gn = [tuple(r) for r in yes], [tuple(r) for r in no]
+        wantp = [p for p, r in enumerate(case['rows'], 1) if (r[case['f'] - 1] if len(r) >= case['f'] else 2) == 2]
+        if gy != ref_yes or gn != ref_no or gy[1:] != want_rows(wantp) or gn[1:] != want_rows(rest(wantp)):
+            problems.append('biselect(missing=%r) delivered %r / %r, spec rows at %r / the rest' % (mk_, gy[1:], gn[1:], wantp))
+    except Exception as e:
+        problems.append('biselect(missing) raised %r' % (e,))
+    # equality selections use plain ==: a LIST cell never equals a TUPLE reference (and vice versa)
+    try:
+        tl = [list(t[0])] + [[([c, 1] if i == case['f'] - 1 else c) for i, c in enumerate(r)] for r in rows]
+        if all(len(r) >= case['f'] for r in rows):
+            refv = (rows[0][case['f'] - 1], 1) if rows else (0, 1)
+            for label, fn, want_all in (('selecteq(list cell, tuple reference)', lambda: etl.selecteq(tl, fld, refv), False),
+                                        ('selectne(list cell, tuple reference)', lambda: etl.selectne(tl, fld, refv), True),
+                                        ('selecteq(list cell, equal list reference)', lambda: etl.selecteq(tl, fld, list(refv)), None),
+                                        ('selectin(list cell, (tuple,))', lambda: etl.selectin(tl, fld, (refv,)), False)):
+                got = [tuple(map(repr, r)) for r in fn()][1:]
+                allr = [tuple(map(repr, r)) for r in tl[1:]]
+                if want_all is None:
+                    want = [tuple(map(repr, r)) for r in tl[1:] if r[case['f'] - 1] == list(refv)]
+                else:
+                    want = allr if want_all else []
+                if got != want:
+                    problems.append('%s on cells %r delivered %r, plain == gives %r' % (label, [r[case['f'] - 1] for r in tl[1:]], got, want))
+    except Exception as e:
+        problems.append('selecteq on list cells raised %r' % (e,))
     if all(len(r) >= case['f'] for r in case['rows']):
         try:
             fc = etl.facet(t, fld)
@@ -183,6 +215,25 @@ def run_slice_case(case):
             check('rowslice(%d, %r)' % (s['start'], stop), lambda: etl.rowslice(t, s['start'], stop), s['out'])
         if s['start'] == 0 and s['step'] == 1 and stop is not None:
             check('rowslice(%r)' % stop, lambda: etl.rowslice(t, stop), s['out'])
+    # NESTED slices compose like itertools.islice (the oracle the property names)
+    sl = case['slices']
+    for i, s1 in enumerate(sl):
+        for s2 in sl[(i % 3)::3]:
+            st1 = None if s1['stop'] == -1 else s1['stop']
+            st2 = None if s2['stop'] == -1 else s2['stop']
+            inner = list(itertools.islice(t[1:], s1['start'], st1, s1['step']))
+            want = [r[0] for r in itertools.islice(inner, s2['start'], st2, s2['step'])]
+            check('rowslice(rowslice(t, %d, %r, %d), %d, %r, %d)' % (s1['start'], st1, s1['step'], s2['start'], st2, s2['step']),
+                  lambda: etl.rowslice(etl.rowslice(t, s1['start'], st1, s1['step']), s2['start'], st2, s2['step']), want)
+        for k in (0, 1, 2, 3):
+            st1 = None if s1['stop'] == -1 else s1['stop']
+            inner = [r[0] for r in itertools.islice(t[1:], s1['start'], st1, s1['step'])]
+            check('head(rowslice(t, %d, %r, %d), %d)' % (s1['start'], st1, s1['step'], k),
+                  lambda: etl.head(etl.rowslice(t, s1['start'], st1, s1['step']), k), inner[:k])
+            check('tail(rowslice(..), %d)' % k, lambda: etl.tail(etl.rowslice(t, s1['start'], st1, s1['step']), k), inner[-k:] if k else [])
+            check('rowslice(head(t, %d), %d, %r, %d)' % (k + 2, s1['start'], st1, s1['step']),
+                  lambda: etl.rowslice(etl.head(t, k + 2), s1['start'], st1, s1['step']),
+                  [r[0] for r in itertools.islice(t[1:k + 3], s1['start'], st1, s1['step'])])
     for k, pos in _items(case['head']):
         check('head(%d)' % k, lambda: etl.head(t, k), pos)
     for k, pos in _items(case['tail']):
